@@ -236,7 +236,8 @@ func checkC06(c *run.Ctx) {
 		case 2:
 			penv = map[string]string{"P1": "v1", "P2": "v2", "env": "lower", "node_version": "20", "v": "1", "TAG_\uff21": "high BMP", "TAG_\U0001f680": "astral", "TAG_\ue000": "private use"}
 		case 3:
-			penv = map[string]string{"A": "pa", "SHARED": "ps", "P3": "v3", "env::A": "looks namespaced already", "env::": "just the prefix", "env:A": "one colon"}
+			penv = map[string]string{"A": "pa", "SHARED": "ps", "P3": "v3", "env::A": "looks namespaced already", "env::": "just the prefix", "env:A": "one colon",
+				"": "the variable without a name", "FLAGS=FAST": "an equals sign in the name", "=": "only an equals sign", " ": "a blank"}
 		default:
 			penv = map[string]string{"A": "pa", "B": "pb", "C": "pc", "D": "pd", "SHARED": "ps"}
 		}
